@@ -56,3 +56,68 @@ REG.contract('C19', U, 'version_compare',
              params={'vstr1': Str, 'vstr2': Str},
              ensures=['result == holds(vstr1, vstr2)'],
              result=Bool, floor=6)
+
+from specs.version import SeqStr, Elem
+REG.contract('C19', U, 'version_compare_many',
+             params={'vstr1': Str, 'conditions': SeqStr},
+             ensures=['result[0] == (len(sel(vstr1, conditions, len(conditions), False)) == 0)',
+                      'result[0] == all_hold(vstr1, conditions, len(conditions))',
+                      'result[1] == sel(vstr1, conditions, len(conditions), False)',
+                      'result[2] == sel(vstr1, conditions, len(conditions), True)'],
+             loops={0: Loop(invariant=['not_found == sel(vstr1, conditions, __i, False)',
+                                       'found == sel(vstr1, conditions, __i, True)',
+                                       '(len(not_found) == 0) == all_hold(vstr1, conditions, __i)'],
+                            locals={'found': List(Str), 'not_found': List(Str)})},
+             floor=6)
+REG.contract('C19', U, 'version_compare_many', variant='single',
+             params={'vstr1': Str, 'conditions': Str},
+             ensures=['result[0] == holds(vstr1, conditions)',
+                      'len(result[1]) + len(result[2]) == 1'],
+             floor=2, note='a single constraint given as a string')
+
+# ---- Range: proved generically for an abstract element sort with a total preorder ---------------
+RangeS = Struct('Range', 'mesonbuild.utils.universal:Range', min=Opt(Elem), min_eq=Bool, max=Opt(Elem), max_eq=Bool, is_empty=Bool)
+WF = 'not (self.is_empty and (self.min is not None or self.max is not None))'
+
+REG.contract('C19', U, 'Range.__contains__',
+             params={'self': RangeS, 'x': Elem},
+             ensures=['result == mem(self, x)'], result=Bool, floor=4)
+REG.contract('C19', U, 'Range.__post_init__',
+             params={'self': RangeS}, requires=['not self.is_empty'],
+             ensures=['forall(Elem, lambda e: mem(new(self), e) == mem(self, e))',
+                      'not (new(self).is_empty and (new(self).min is not None or new(self).max is not None))'],
+             modifies=['self.min', 'self.max', 'self.is_empty'], floor=4)
+REG.contract('C19', U, 'Range._intersect_min',
+             params={'self': RangeS, 'v': Elem, 'eq': Bool}, requires=['not self.is_empty'],
+             ensures=['forall(Elem, lambda e: mem(new(self), e) == (mem(self, e) and (e >= v if eq else e > v)))'],
+             modifies=['self.min', 'self.min_eq'], floor=3)
+REG.contract('C19', U, 'Range._intersect_max',
+             params={'self': RangeS, 'v': Elem, 'eq': Bool}, requires=['not self.is_empty'],
+             ensures=['forall(Elem, lambda e: mem(new(self), e) == (mem(self, e) and (e <= v if eq else e < v)))'],
+             modifies=['self.max', 'self.max_eq'], floor=3)
+REG.contract('C19', U, 'Range.intersect',
+             params={'self': RangeS, 'x': RangeS},
+             ensures=['forall(Elem, lambda e: mem(result, e) == (mem(self, e) and mem(x, e)))'],
+             result=RangeS, floor=4)
+REG.contract('C19', U, 'Range.always',
+             params={'self': RangeS, 'inner': RangeS},
+             ensures=['implies(result is True, forall(Elem, lambda e: implies(mem(self, e), mem(inner, e))))',
+                      'implies(result is False, forall(Elem, lambda e: implies(mem(self, e), not mem(inner, e))))'],
+             floor=3)
+
+ABS_VERSION = {'mesonbuild.utils.universal:Version': (Elem, 'ver_of')}
+REG.contract('C19', U, 'version_check_to_range',
+             params={'checks': SeqStr, 'start': RangeS},
+             requires=['not (start.is_empty and (start.min is not None or start.max is not None))'],
+             ensures=['forall(Elem, lambda e: implies(mem(start, e) and sat_all(checks, len(checks), e), mem(result, e)))',
+                      'forall(Elem, lambda e: implies(mem(result, e), mem(start, e) and sat_nonne(checks, len(checks), e)))'],
+             loops={0: Loop(invariant=[
+                 'forall(Elem, lambda e: implies(mem(old_start, e) and sat_all(checks, __i, e), mem(start, e)))',
+                 'forall(Elem, lambda e: implies(mem(start, e), mem(old_start, e) and sat_nonne(checks, __i, e)))'])},
+             abstract_classes=ABS_VERSION, result=RangeS, floor=10,
+             note='Version abstracted as an element of a total preorder (lemmas L19.*); start is not modified (Range is used immutably)')
+REG.contract('C19', U, 'version_compare_condition_with_min',
+             params={'condition': RangeS, 'minimum': Str},
+             ensures=['implies(result, forall(Elem, lambda e: implies(mem(condition, e), e >= ver(minimum))))'],
+             abstract_classes=ABS_VERSION, floor=2,
+             note='True only if every version satisfying the condition is at least the minimum')
